@@ -3,6 +3,7 @@
 package mutex
 
 import (
+	"sync/atomic"
 	"sync"
 
 	"github.com/goatcms/goatcore/app/modules/commonm/commservices"
@@ -18,6 +19,7 @@ import (
 // gets in.
 func ZZVerifC15Locks() {
 	nd.Schedule(nd.Param("P", 2))
+	nd.Races()
 	nd.MapOrder()
 	h := nd.Param("H", 2)
 	r := nd.Param("R", 2)
@@ -46,17 +48,17 @@ func ZZVerifC15Locks() {
 		}
 	}
 	sm := NewSharedMutex()
-	inside := make([]bool, h)
+	inside := make([]int32, h) // occupancy probe, accessed atomically
 	var wg sync.WaitGroup
 	for k := 0; k < h; k++ {
 		wg.Add(1)
 		go func(k int) {
 			defer wg.Done()
 			handler := sm.Lock(maps[k])
-			inside[k] = true
+			atomic.StoreInt32(&inside[k], 1)
 			nd.Yield()
 			for o := 0; o < h; o++ {
-				if o == k || !inside[o] {
+				if o == k || atomic.LoadInt32(&inside[o]) == 0 {
 					continue
 				}
 				// both inside: every common resource must be read-only for both
@@ -69,7 +71,7 @@ func ZZVerifC15Locks() {
 				nd.Reach("C15/both-inside")
 			}
 			nd.Yield()
-			inside[k] = false
+			atomic.StoreInt32(&inside[k], 0)
 			handler.Unlock()
 		}(k)
 	}
